@@ -26,33 +26,62 @@ Section RavelProofs.
   with sforest_ind2 := Induction for Ravel.sforest Sort Prop.
   Combined Scheme stree_sforest_ind from stree_ind2, sforest_ind2.
 
+  (* cbn unfolds the first component of a mutual fixpoint without refolding it *)
+  Ltac refold :=
+    repeat (progress (fold (@wf A) in *; fold (@wf_f A) in *; fold (@shape_of A) in *; fold (@shape_of_f A) in *;
+                      fold (@ravel_tree A) in *; fold (@ravel_forest A) in *; fold (@unravel A) in *;
+                      fold (@unravel_f A) in *; fold size in *; fold size_f in * )).
+
   (* ------------------------------------------------------------ list facts *)
   Lemma firstn_app_len (l r : list A) : firstn (length l) (l ++ r) = l.
   Proof. induction l as [|x l IH]; simpl; [reflexivity|]. rewrite IH. reflexivity. Qed.
   Lemma skipn_app_len (l r : list A) : skipn (length l) (l ++ r) = r.
   Proof. induction l as [|x l IH]; simpl; [reflexivity|]. exact IH. Qed.
 
+  Lemma nth_map_seq {B : Type} (f : nat -> B) n a (d0 : B) : a < n -> nth a (map f (seq 0 n)) d0 = f a.
+  Proof.
+    intro Ha. rewrite nth_indep with (d' := f 0) by (rewrite map_length, seq_length; exact Ha).
+    rewrite map_nth. rewrite seq_nth by exact Ha. reflexivity.
+  Qed.
+  Lemma nth_map_in {B C : Type} (f : B -> C) (l : list B) i (d0 : B) (d1 : C) :
+    i < length l -> nth i (map f l) d1 = f (nth i l d0).
+  Proof.
+    intro Hi. rewrite nth_indep with (d' := f d0) by (rewrite map_length; exact Hi). apply map_nth.
+  Qed.
+
+  Lemma skipn_add a b (l : list A) : skipn b (skipn a l) = skipn (a + b) l.
+  Proof.
+    revert l. induction a as [|a IH]; intro l; [reflexivity|].
+    destruct l as [|x l]; simpl; [apply skipn_nil|apply IH].
+  Qed.
+  Lemma firstn_add a b (l : list A) : firstn a l ++ firstn b (skipn a l) = firstn (a + b) l.
+  Proof.
+    revert l. induction a as [|a IH]; intro l; [reflexivity|].
+    destruct l as [|x l]; simpl; [rewrite firstn_nil; reflexivity|rewrite IH; reflexivity].
+  Qed.
+
   (* ---------------------------------------------------------- single trees *)
   Lemma ravel_length :
     (forall t : tree, wf t -> length (ravel_tree t) = size (shape_of t))
     /\ (forall f : forest, wf_f f -> length (ravel_forest f) = size_f (shape_of_f f)).
   Proof.
-    apply tree_forest_ind; simpl.
+    apply tree_forest_ind.
     - intros sh data Hw. exact Hw.
-    - intros f IH Hw. apply IH. exact Hw.
+    - intros f IH Hw. cbn in *; refold. apply IH. exact Hw.
     - intros _. reflexivity.
-    - intros t IHt f IHf [Hwt Hwf]. rewrite app_length, IHt, IHf by assumption. reflexivity.
+    - intros t IHt f IHf Hw. cbn in *; refold. destruct Hw as [Hwt Hwf].
+      rewrite app_length, IHt, IHf by assumption. reflexivity.
   Qed.
 
   Lemma unravel_ravel_gen :
     (forall t : tree, wf t -> forall r, unravel (shape_of t) (ravel_tree t ++ r) = (t, r))
     /\ (forall f : forest, wf_f f -> forall r, unravel_f (shape_of_f f) (ravel_forest f ++ r) = (f, r)).
   Proof.
-    apply tree_forest_ind; simpl.
-    - intros sh data Hw r. rewrite <- Hw. rewrite firstn_app_len, skipn_app_len. reflexivity.
-    - intros f IH Hw r. rewrite IH by assumption. reflexivity.
+    apply tree_forest_ind.
+    - intros sh data Hw r. cbn in *; refold. rewrite <- Hw. rewrite firstn_app_len, skipn_app_len. reflexivity.
+    - intros f IH Hw r. cbn in *; refold. rewrite IH by assumption. reflexivity.
     - intros _ r. reflexivity.
-    - intros t IHt f IHf [Hwt Hwf] r. rewrite <- app_assoc.
+    - intros t IHt f IHf Hw r. cbn in *; refold. destruct Hw as [Hwt Hwf]. rewrite <- app_assoc.
       rewrite IHt by assumption. rewrite IHf by assumption. reflexivity.
   Qed.
 
@@ -76,28 +105,24 @@ Section RavelProofs.
         /\ ravel_forest (fst (unravel_f f v)) = firstn (size_f f) v
         /\ snd (unravel_f f v) = skipn (size_f f) v).
   Proof.
-    apply stree_sforest_ind; simpl.
-    - intros sh v Hl. repeat split. apply firstn_length_le. exact Hl.
-    - intros f IH v Hl. destruct (IH v Hl) as [Hw [Hs [Hr Hk]]].
-      destruct (unravel_f f v) as [fr rest]. simpl in *. repeat split; try assumption.
+    apply stree_sforest_ind.
+    - intros sh v Hl. cbn in *; refold. repeat split. apply firstn_length_le. exact Hl.
+    - intros f IH v Hl. cbn in Hl; refold. destruct (IH v Hl) as [Hw [Hs [Hr Hk]]].
+      cbn; refold. destruct (unravel_f f v) as [fr rest]. cbn in *; refold. repeat split; try assumption.
       rewrite Hs. reflexivity.
-    - intros v _. repeat split.
-    - intros s IHs f IHf v Hl.
+    - intros v _. cbn. repeat split.
+    - intros s IHs f IHf v Hl. cbn in Hl; refold.
       assert (Hls : size s <= length v) by lia.
       destruct (IHs v Hls) as [Hw [Hs [Hr Hk]]].
-      destruct (unravel s v) as [t r]. simpl in *.
+      cbn; refold. destruct (unravel s v) as [t r]. cbn in Hw, Hs, Hr, Hk; refold.
       assert (Hlf : size_f f <= length r).
       { rewrite Hk. rewrite skipn_length. lia. }
       destruct (IHf r Hlf) as [Hwf [Hsf [Hrf Hkf]]].
-      destruct (unravel_f f r) as [fr r']. simpl in *.
+      destruct (unravel_f f r) as [fr r']. cbn in *; refold.
       repeat split; try assumption.
       + rewrite Hs, Hsf. reflexivity.
-      + rewrite Hr, Hrf, Hk. clear.
-        revert v. induction (size s) as [|n IH]; intro v; simpl; [reflexivity|].
-        destruct v as [|x v]; simpl.
-        * rewrite !firstn_nil. reflexivity.
-        * rewrite IH. reflexivity.
-      + rewrite Hkf, Hk. rewrite skipn_skipn. f_equal. lia.
+      + rewrite Hr, Hrf, Hk. apply firstn_add.
+      + rewrite Hkf, Hk. apply skipn_add.
   Qed.
 
   Theorem ravel_unravel_tree (s : stree) (v : list A) :
@@ -126,7 +151,7 @@ Section RavelProofs.
   Proof.
     intro H. unfold unravel_iso, ravel_iso. rewrite map_map.
     rewrite <- (map_id x) at 2. apply map_ext_in. intros t Ht.
-    rewrite Forall_forall in H. destruct (H t Ht) as [Hw Hs].
+    unfold coeffs_ok in H. rewrite Forall_forall in H. destruct (H t Ht) as [Hw Hs].
     rewrite <- Hs. apply unravel_ravel_tree. exact Hw.
   Qed.
 
@@ -156,18 +181,13 @@ Section RavelProofs.
   Lemma transpose_row ncols (M : list (list A)) a : a < ncols ->
     nth a (transpose dflt ncols M) [] = map (fun row => nth a row dflt) M.
   Proof.
-    intro Ha. unfold transpose.
-    rewrite nth_indep with (d' := (fun a => map (fun row => nth a row dflt) M) 0)
-      by (rewrite map_length, seq_length; exact Ha).
-    rewrite map_nth. rewrite seq_nth by exact Ha. reflexivity.
+    intro Ha. unfold transpose. apply (nth_map_seq (fun a => map (fun row => nth a row dflt) M)). exact Ha.
   Qed.
   Lemma transpose_nth ncols (M : list (list A)) a i : a < ncols -> i < length M ->
     nth i (nth a (transpose dflt ncols M) []) dflt = nth a (nth i M []) dflt.
   Proof.
     intros Ha Hi. rewrite transpose_row by exact Ha.
-    rewrite nth_indep with (d' := (fun row => nth a row dflt) [])
-      by (rewrite map_length; exact Hi).
-    rewrite map_nth. reflexivity.
+    apply (nth_map_in (fun row => nth a row dflt) M i [] dflt). exact Hi.
   Qed.
   Lemma transpose_transpose d (M : list (list A)) :
     Forall (fun r => length r = d) M ->
@@ -182,9 +202,9 @@ Section RavelProofs.
       apply nth_ext with (d := dflt) (d' := dflt).
       + rewrite map_length, transpose_length. symmetry. exact Hrow.
       + intros a Ha. rewrite map_length, transpose_length in Ha.
-        rewrite nth_indep with (d' := (fun row => nth i row dflt) [])
-          by (rewrite map_length, transpose_length; exact Ha).
-        rewrite map_nth. apply transpose_nth; assumption.
+        rewrite (nth_map_in (fun row => nth i row dflt) (transpose dflt d M) a [] dflt)
+          by (rewrite transpose_length; exact Ha).
+        apply transpose_nth; assumption.
   Qed.
 
   (* T15.1 block-diagonal *)
@@ -261,10 +281,7 @@ Section RavelProofs.
   Lemma reindex_nth sigma d (v : list A) a : a < d ->
     nth a (reindex dflt sigma d v) dflt = nth (sigma a) v dflt.
   Proof.
-    intro Ha. unfold reindex.
-    rewrite nth_indep with (d' := (fun a => nth (sigma a) v dflt) 0)
-      by (rewrite map_length, seq_length; exact Ha).
-    rewrite map_nth. rewrite seq_nth by exact Ha. reflexivity.
+    intro Ha. unfold reindex. apply (nth_map_seq (fun a => nth (sigma a) v dflt)). exact Ha.
   Qed.
 
   (* the permuted structure is well formed with the same shape tree, and its
@@ -297,9 +314,8 @@ Section RavelProofs.
     destruct (ravel_orders_agree s x i (sigma a) H Hi Hsa) as [E2 _].
     rewrite <- E1, <- E2. rewrite ravel_iso_permuted.
     assert (Hi' : i < length (ravel_iso x)) by (unfold ravel_iso; rewrite map_length; exact Hi).
-    rewrite nth_indep with (d' := reindex dflt sigma (size s) [])
-      by (rewrite map_length; exact Hi').
-    rewrite map_nth. apply reindex_nth. exact Ha.
+    rewrite (nth_map_in (reindex dflt sigma (size s)) (ravel_iso x) i [] []) by exact Hi'.
+    apply reindex_nth. exact Ha.
   Qed.
 
   (* block a of the permuted problem is block sigma(a) of the original one *)
